@@ -110,8 +110,8 @@ def write_uboot_image(
     header.ih_load = load_address
     header.ih_ep = entry_point
     header.ih_dcrc = crc32(data)
-    header.id_os = os.value
-    header.id_arch = arch.value
+    header.ih_os = os.value
+    header.ih_arch = arch.value
     header.ih_type = ApplicationType.KERNEL.value
     header.ih_comp = Compression.NONE.value
     header.ih_name = image_name.encode("ascii")
